@@ -744,6 +744,19 @@ func (env *SpecEnv) call(n SCall) TV {
 		return TV{arg(0).V, types.Universe.Lookup(n.Fun).Type()}
 	case "sameRef":
 		return TV{S("(= %s %s)", env.refOf(arg(0)), env.refOf(arg(1))), boolT}
+	case "ncalls":
+		// ncalls("substr"): how many calls to callees whose name contains substr happened so far on this path
+		lit, ok := n.Args[0].(SStr)
+		if !ok {
+			env.fail("ncalls: argument must be a string literal")
+		}
+		cnt := 0
+		for _, c := range env.cur.calls {
+			if strings.Contains(c, lit.V) {
+				cnt++
+			}
+		}
+		return TV{S("%d", cnt), intT}
 	case "unchanged":
 		a := env.eval(n.Args[0])
 		b := env.inOld().eval(n.Args[0])
